@@ -56,7 +56,7 @@ pub struct Style {
     pub flip_empty: Option<String>, // childless element name written in the other form (<x/> <-> <x></x>)
     pub single_quotes: bool,
     pub reverse_attrs: bool,
-    pub decl: bool,
+    pub decl: Option<&'static str>, // an XML declaration in front of the root, in this spelling
     pub root_comment: bool,
     pub after_root: Option<&'static str>, // Misc after the root element: comment, whitespace, PI
 }
@@ -187,8 +187,8 @@ fn write(
 
 pub fn render(root: &El, st: &Style) -> String {
     let mut out = String::new();
-    if st.decl {
-        out.push_str("<?xml version=\"1.0\" encoding=\"UTF-8\"?>");
+    if let Some(d) = st.decl {
+        out.push_str(d);
     }
     if st.root_comment {
         out.push_str("<!-- before root -->");
@@ -246,13 +246,27 @@ pub fn variants(root: &El) -> Vec<(String, Style)> {
             ..Default::default()
         },
     ));
-    v.push((
-        "xml-decl@*".into(),
-        Style {
-            decl: true,
-            ..Default::default()
-        },
-    ));
+    // every spelling of the XML declaration (XML 1.0 §2.8, §4.3.3: encoding names are case-insensitive)
+    for (i, d) in [
+        "<?xml version=\"1.0\" encoding=\"UTF-8\"?>",
+        "<?xml version=\"1.0\"?>",
+        "<?xml version='1.0' encoding='UTF-8'?>",
+        "<?xml version=\"1.0\" encoding=\"utf-8\"?>",
+        "<?xml version=\"1.0\" encoding=\"Utf-8\" ?>",
+        "<?xml version=\"1.0\" encoding=\"UTF-8\" standalone=\"yes\"?>",
+        "<?xml  version = \"1.0\"  encoding = \"UTF-8\"?>\n",
+    ]
+    .into_iter()
+    .enumerate()
+    {
+        v.push((
+            format!("xml-decl{i}@*"),
+            Style {
+                decl: Some(d),
+                ..Default::default()
+            },
+        ));
+    }
     v.push((
         "comment@root".into(),
         Style {
